@@ -41,8 +41,8 @@ def harness(sanitize=True):
 
 def graphs(tier):
     if tier == "quick":
-        return [("one_TRUE", ["int", "str", "trk"]), ("one_FALSE", ["int", "str", "trk"]), ("two_TRUE", ["trk"]), ("two_FALSE", ["trk"])]
-    return [("one4_TRUE", ["int", "str", "trk"]), ("one4_FALSE", ["int", "str", "trk"]), ("one5_TRUE", ["trk"]), ("one5_FALSE", ["trk"]),
+        return [("one_TRUE", ["int", "str", "trk", "vec"]), ("one_FALSE", ["int", "str", "trk", "vec"]), ("two_TRUE", ["trk"]), ("two_FALSE", ["trk"])]
+    return [("one4_TRUE", ["int", "str", "trk", "vec"]), ("one4_FALSE", ["int", "str", "trk", "vec"]), ("one5_TRUE", ["trk"]), ("one5_FALSE", ["trk"]),
             ("two_TRUE", ["int", "str", "trk"]), ("two_FALSE", ["int", "str", "trk"])]
 
 
@@ -223,7 +223,7 @@ def y_scripts(seed, count):
         ow = rnd.randrange(2)
         cap = rnd.choice([1, 2, 3, 4, 5, 7, 8, 11, 16])
         init = rnd.randrange(0, min(cap, 4) + 1)
-        ty = rnd.choice(["int", "str", "trk"])
+        ty = rnd.choice(["int", "str", "trk", "vec"])
         xid = "y%d" % n
         hdr = "X %s type=%s ow=%d cap=%d init=%d list=%d" % (xid, ty, ow, cap, init, rnd.randrange(2))
         lines.append(hdr)
